@@ -190,6 +190,17 @@ def classify(query):
     return None
 
 
+def build(ctx, *a, **k):
+    """ctx.build_harness, retried once after waiting for the shared simgrid build (another check may be relinking it)"""
+    nb = len(ctx.broken)
+    h = ctx.build_harness(*a, **k)
+    if h is None:
+        del ctx.broken[nb:]
+        ctx.ensure_simgrid(["simgrid"])
+        h = ctx.build_harness(*a, **k)
+    return h
+
+
 def run(ctx):
     ctx.cov["rule"] = ("query = (function, value string); strings = every unit name the code can build on every base unit "
                        "(both prefix spellings), the names the documentation lists, SI/IEC names and near misses, each x "
@@ -226,7 +237,7 @@ def run(ctx):
         valid = None
     ctx.lean_prove()
     drv = ctx.lean_exe()
-    h = ctx.build_harness("harness.cpp")
+    h = build(ctx, "harness.cpp")
     if not (drv and h):
         return
     nnum, nmal, nlist = (60, 400, 150) if ctx.tier == "quick" else (600, 20000, 8000)
